@@ -147,6 +147,9 @@ struct Ctx {
     abort: bool,
     tab_allocs: u64,
     tab_frees: u64,
+    /// per slot: how many further NEW keys with_capacity / reserve / try_reserve have promised to
+    /// take without reallocating (C10)
+    promise: Vec<u64>,
     // the next call's state is not compared with the model (Y) / its contents are dumped
     skip_state_once: bool,
     dump_once: bool,
@@ -343,6 +346,46 @@ fn run_op(cx: &mut Ctx, spec: OpSpec, body: impl FnOnce(&mut Ctx) -> Out) -> Out
         writeln!(cx.out, "S {} {}", s, st).unwrap();
     }
     let after: Option<VS> = cx.maps[s0].as_ref().map(|m| m.verif_state());
+    // C10: the insertions that with_capacity(n) / reserve(n) / a successful try_reserve(n) promised
+    {
+        let len_of = |v: &VS| (v.main_len + v.old.map_or(0, |o| o.0)) as u64;
+        let arg: u64 = spec.toks.split(' ').last().and_then(|x| x.parse().ok()).unwrap_or(0);
+        let ok = !matches!(out, Out::P(_)) && spec.fuse.is_none() && !spec.slots.iter().any(|s| cx.poisoned[*s]);
+        let mut keep = false;
+        match (spec.kind, before, after) {
+            ("new", _, Some(_)) if ok => {
+                cx.promise[s0] = arg;
+                keep = true;
+            }
+            ("reserve", _, Some(_)) if ok => {
+                cx.promise[s0] = arg;
+                keep = true;
+            }
+            ("tryreserve", _, Some(_)) if ok && out == Out::B(true) => {
+                cx.promise[s0] = arg;
+                keep = true;
+            }
+            ("ins", Some(b), Some(a)) | ("entry", Some(b), Some(a)) | ("rawentry", Some(b), Some(a)) if ok => {
+                let (lb, la) = (len_of(&b), len_of(&a));
+                if la > lb && cx.promise[s0] >= la - lb {
+                    if c.allocs > 0 && cx.monitors {
+                        vio("C10", format!("[{}] reallocated although {} more new keys were promised room by with_capacity/reserve/try_reserve", spec.toks, cx.promise[s0]));
+                    }
+                    cx.promise[s0] -= la - lb;
+                    keep = true;
+                } else if la <= lb {
+                    keep = true; // an overwrite, a lookup or a removal through the handle uses up no room
+                }
+            }
+            ("get", _, _) | ("get_key_value", _, _) | ("contains_key", _, _) | ("get_mut", _, _) | ("index", _, _) | ("get_key_value_mut", _, _) | ("rem", _, _) | ("remove", _, _) | ("remove_entry", _, _) | ("rawget", _, _) | ("iter", _, _) | ("keys", _, _) | ("values", _, _) | ("eq", _, _) if ok => keep = true,
+            _ => {}
+        }
+        if !keep {
+            for &s in &spec.slots {
+                cx.promise[s] = 0;
+            }
+        }
+    }
     // Q: a new old table appeared during the call: what its cached iterator still holds
     if let Some(a) = after {
         if let Some((ol, ob, _)) = a.old {
@@ -558,6 +601,10 @@ fn run_op(cx: &mut Ctx, spec: OpSpec, body: impl FnOnce(&mut Ctx) -> Out) -> Out
                 // C03: removal paths that must release an old table they empty
                 let must_free = matches!(spec.kind, "remove" | "remove_entry" | "drainfilter")
                     || (matches!(spec.kind, "entry" | "rawentry") && (spec.toks.contains(" orem") ) && !spec.toks.contains("orepw") && !spec.toks.contains("andrep"));
+                // clear() and drain() (not forgotten) leave no old table behind, emptied or not
+                if matches!(spec.kind, "clear" | "drain") && a.old.is_some() {
+                    vio("C03", format!("an old table is still allocated after [{}]", spec.toks));
+                }
                 if must_free {
                     if let (Some((bl, _, _)), Some((0, _, _))) = (b.old, a.old) {
                         if bl > 0 {
@@ -2144,6 +2191,7 @@ fn main() {
             abort: false,
             tab_allocs: 0,
             tab_frees: 0,
+            promise: vec![0; NSLOTS],
             skip_state_once: false,
             dump_once: false,
         };
